@@ -93,16 +93,16 @@ def run_ident(case):
     if op == "normalize":
         n = normalize(im)
         m = float(n.values.mean())
-        if abs(m - 1) > 1e-12 * TOLX:
+        if not (abs(m - 1) <= 1e-12 * TOLX):
             return Outcome(failure("normalize_mean", "mean after normalize = %.17g" % m), True, labels)
         n2 = normalize(n)
-        if np.abs(n2.values - n.values).max() > 1e-12 * np.abs(n.values).max() * TOLX:
+        if not (np.abs(n2.values - n.values).max() <= 1e-12 * np.abs(n.values).max() * TOLX):
             return Outcome(failure("normalize_idempotent", "normalize(normalize(a)) != normalize(a)"), True, labels)
         ns = normalize(im * case["scale"])
-        if np.abs(ns.values - n.values).max() > 1e-12 * np.abs(n.values).max() * TOLX:
+        if not (np.abs(ns.values - n.values).max() <= 1e-12 * np.abs(n.values).max() * TOLX):
             return Outcome(failure("normalize_scale_invariance", "normalize(c*a) != normalize(a) for c=%r" % case["scale"]), True, labels)
         want = im.values / im.values.mean()
-        if np.abs(n.values - want).max() > 1e-12 * np.abs(want).max() * TOLX:
+        if not (np.abs(n.values - want).max() <= 1e-12 * np.abs(want).max() * TOLX):
             return Outcome(failure("normalize_values", "normalize(a) != a / mean(a)"), True, labels)
         for r in (n,):
             msg = meta_same(im, r) or coords_same(im, r)
@@ -135,7 +135,7 @@ def run_ident(case):
         r = bg_correct(raw, bg, df)
         d = df.values.astype(float) if df is not None else 0.0
         want = (raw.values.astype(float) - d) / (bg.values.astype(float) - d)
-        if np.abs(r.values - want).max() > 1e-14 * np.abs(want).max() * TOLX:
+        if not (np.abs(r.values - want).max() <= 1e-14 * np.abs(want).max() * TOLX):
             return Outcome(failure("bg_correct_formula", "bg_correct != (raw-df)/(bg-df): max diff %.3g" % np.abs(r.values - want).max(), df=case["df"]), True, labels)
         one = bg_correct(raw, raw)
         if not np.all(one.values == 1.0):
@@ -173,12 +173,12 @@ def run_ident(case):
         pim = im.copy(data=plane * (abs(hi) + abs(lo)))
         dp = detrend(pim)
         sc = max(np.abs(pim.values).max(), 1e-300)
-        if np.abs(dp.values).max() > 1e-9 * sc * TOLX:
+        if not (np.abs(dp.values).max() <= 1e-9 * sc * TOLX):
             return Outcome(failure("detrend_plane", "detrend(plane) leaves %.3g of scale %.3g" % (np.abs(dp.values).max(), sc)), True, labels)
         d1 = detrend(im)
         d2 = detrend(im + pim)
         sc = max(np.abs(im.values).max(), np.abs(pim.values).max())
-        if np.abs(d1.values - d2.values).max() > 1e-9 * sc * TOLX:
+        if not (np.abs(d1.values - d2.values).max() <= 1e-9 * sc * TOLX):
             return Outcome(failure("detrend_invariance", "detrend(img+plane) != detrend(img): %.3g" % np.abs(d1.values - d2.values).max()), True, labels)
         msg = meta_same(im, d1) or coords_same(im, d1)
         if msg:
@@ -303,7 +303,7 @@ def run_dead(case):
             want = (v[i, j - 1] + v[i, j + 1]) / 2; kind = "edge"
         else:
             want = (v[i - 1, j] + v[i + 1, j]) / 2; kind = "edge"
-        if abs(o[0, i, j] - want) > 1e-12 * abs(want) * TOLX:
+        if not (abs(o[0, i, j] - want) <= 1e-12 * abs(want) * TOLX):
             return Outcome(failure("zero_filter_value", "%s dead pixel (%d,%d) -> %.15g, expected mean of neighbours %.15g" % (kind, i, j, o[0, i, j], want), kind=kind), True, labels)
         labels.append(kind)
     msg = meta_same(im, out) or coords_same(im, out)
@@ -350,9 +350,9 @@ def run_acc(case):
         stack = np.array(arrs[:n])
         m = np.asarray(getattr(acc.mean(), "values", acc.mean()))
         s = np.asarray(getattr(acc.std(), "values", acc.std()))
-        if np.abs(m - stack.mean(0)).max() > 1e-10 * scale * TOLX:
+        if not (np.abs(m - stack.mean(0)).max() <= 1e-10 * scale * TOLX):
             return Outcome(failure("accumulator_mean", "after %d pushes mean differs from the batch mean by %.3g" % (n, np.abs(m - stack.mean(0)).max())), True, labels)
-        if np.abs(s - stack.std(0)).max() > 1e-10 * scale * TOLX + 1e-8 * (hi - lo):
+        if not (np.abs(s - stack.std(0)).max() <= 1e-10 * scale * TOLX + 1e-8 * (hi - lo)):
             return Outcome(failure("accumulator_std", "after %d pushes std differs from the batch population std by %.3g" % (n, np.abs(s - stack.std(0)).max())), True, labels)
         after = it.values if hasattr(it, "values") else np.array(it)
         if not np.array_equal(before, after):
@@ -364,7 +364,7 @@ def run_acc(case):
         acc2.push(items[i])
     m1 = np.asarray(getattr(acc.mean(), "values", acc.mean())); m2 = np.asarray(getattr(acc2.mean(), "values", acc2.mean()))
     s1 = np.asarray(getattr(acc.std(), "values", acc.std())); s2 = np.asarray(getattr(acc2.std(), "values", acc2.std()))
-    if np.abs(m1 - m2).max() > 1e-10 * scale * TOLX or np.abs(s1 - s2).max() > 1e-10 * scale * TOLX + 1e-8 * (hi - lo):
+    if not (np.abs(m1 - m2).max() <= 1e-10 * scale * TOLX) or not (np.abs(s1 - s2).max() <= 1e-10 * scale * TOLX + 1e-8 * (hi - lo)):
         return Outcome(failure("accumulator_order", "mean/std depend on the order of pushes"), True, labels)
     if case["kind"] == "images":
         msg = meta_same(items[0], acc.mean())
@@ -421,7 +421,7 @@ def run_center(case):
     if not in_domain:
         return Outcome(None, False, labels + ["outside_calibrated_domain"], skipped=True, metrics={"center_error_px_outside_domain": err})
     met = {"center_error_px": err}
-    if err > 1.0 * TOLX:
+    if not (err <= 1.0 * TOLX):
         return Outcome(failure("center_find", "centre found at (%.2f, %.2f), true (%.2f, %.2f): error %.2f px (detector %d px, x=%.3g, kz=%.4g)" % (
             c[0], c[1], cx, cy, err, n, case["x"], case["kz"]), order=case["order"]), True, labels, metrics=met)
     pri = make_center_priors(holo)
